@@ -56,6 +56,7 @@ pub fn run(cfg: &RunCfg, rep: &mut Report) {
             timelocks: true,
             hashes: true,
             max_depth: 4,
+            timelock_heavy: rng.chance(1, 3),
         };
         let leaves = 1 + rng.below(max_leaves);
         let p = PolGen::new(&mut rng, pcfg.clone()).gen(leaves, 0);
